@@ -296,6 +296,25 @@ func nameClass(cs caseT) string {
 	return ""
 }
 
+// wordClass: the divergence class of one constraint word ("" = in the proved domain DomTag).
+func wordClass(c ctxT, w string) string {
+	if specialWord(c, w) {
+		return "hdr-special-word"
+	}
+	if strings.HasPrefix(w, "go1.") && len(w) > 4 {
+		canon := true
+		for i, ch := range w[4:] {
+			if ch < '0' || ch > '9' || (i == 0 && ch == '0') {
+				canon = false
+			}
+		}
+		if !canon {
+			return "hdr-release-form" // go1.0, go1.01, go1.x
+		}
+	}
+	return ""
+}
+
 func validTag(w string) bool {
 	if w == "" {
 		return false
@@ -309,10 +328,20 @@ func validTag(w string) bool {
 }
 
 func hdrClass(c caseT) string {
+	// since the repair of buildOk (F17 fixed) a //go:build line is parsed with go/build/constraint and
+	// its words are evaluated by buildTagOk: only the word classes below still apply to it
 	for _, g := range c.Groups {
 		for _, cm := range g {
 			if cm.Line && strings.HasPrefix(strings.TrimSpace(cm.Text), "go:build") {
-				return "hdr-gobuild" // F17
+				words := strings.FieldsFunc(strings.TrimPrefix(strings.TrimSpace(cm.Text), "go:build"), func(r rune) bool {
+					return !(r >= 'a' && r <= 'z' || r >= 'A' && r <= 'Z' || r >= '0' && r <= '9' || r == '_' || r == '.')
+				})
+				for _, w := range words {
+					if cl := wordClass(c.Ctx, w); cl != "" {
+						return cl
+					}
+				}
+				return ""
 			}
 		}
 	}
@@ -364,21 +393,8 @@ func hdrClass(c caseT) string {
 						// a build tag, which the generator never produces
 						continue
 					}
-					if specialWord(c.Ctx, w) {
-						return "hdr-special-word"
-					}
-					if strings.HasPrefix(w, "go1.") && len(w) > 4 {
-						n := 0
-						canon := true
-						for i, ch := range w[4:] {
-							if ch < '0' || ch > '9' || (i == 0 && ch == '0') {
-								canon = false
-							}
-							n = n*10 + int(ch-'0')
-						}
-						if !canon {
-							return "hdr-release-form" // go1.0, go1.01, go1.x
-						}
+					if cl := wordClass(c.Ctx, w); cl != "" {
+						return cl
 					}
 				}
 			}
